@@ -91,3 +91,93 @@ Proof.
   apply restore_children; assumption.
 Qed.
 End V.
+
+(** the next hook of the attach phase: the _pre_attach of the FIRST new child,
+    when that child has no parent at that moment (it was a root, or one of the
+    former children just detached): nothing has been attached yet, the
+    rollback restores every link *)
+Section V2.
+Variables (typed asrt : bool) (faults : nat -> hookkind -> id -> bool).
+
+Lemma check_loop_ok h x n ln s : heap_of s = h -> Inv h -> chain h n ln -> x <> n -> ~ In x ln ->
+  check_loop x (Some n) s = (Ok tt, s).
+Proof.
+  intros Hs I C Nx Nl. unfold check_loop.
+  destruct (Nat.eqb_spec n x) as [E|_]; [congruence|].
+  unfold mbind at 1. unfold get_heap. cbn [fst snd]. rewrite Hs.
+  destruct (path_rev_inv h n I) as [l [Cl Pl]]. rewrite (chain_fun _ _ _ C _ Cl) in *.
+  unfold mbind at 1. unfold lift. rewrite Pl. cbn [fst snd].
+  assert (M : mem (n :: l) x = false).
+  { destruct (mem (n :: l) x) eqn:E; [|reflexivity]. apply mem_In in E. destruct E as [E|E]; [congruence|contradiction]. }
+  rewrite M. reflexivity.
+Qed.
+
+Theorem first_pre_attach_veto_restores fu n x1 rest s : let h := heap_of s in
+  let xs := x1 :: rest in
+  Inv h -> n < length h -> NoDup xs ->
+  x1 < length h -> x1 <> n -> ~ In x1 (ancestors_of h n) ->
+  (parent h x1 = None \/ parent h x1 = Some n) ->
+  let i0 := length (fst (log_del_children h n)) + cnt s in
+  (forall i k m, faults i k m = true -> i = S i0) ->
+  faults (S i0) PreAttach x1 = true ->
+  let r := set_children typed asrt faults (S (S fu)) n (CList (map VNode xs)) s in
+  fst r = Err (HookExn (S i0)) /\ heap_of (snd r) = h.
+Proof.
+  intros h xs I Hn ND Bx Nx Ax Px i0 Hf Hv.
+  set (h0 := del_effect h n). set (l0 := fst (log_del_children h n)). set (s0 := st_after s h0 l0).
+  set (old := children h n).
+  destruct (detach_children_state n (children h n) h I Hn eq_refl) as [I0 [L0 [K0 [P0 D0]]]].
+  rewrite (detach_children_effect n h I Hn) in I0, L0, K0, P0, D0. fold h0 in I0, L0, K0, P0, D0.
+  assert (ED : del_children typed asrt faults n s = (Ok tt, s0)).
+  { transitivity (del_children typed asrt no_faults n s); [|apply (del_children_run typed asrt n s I Hn)].
+    apply (simb_del_children typed asrt faults no_faults n s).
+    intros i k m Hi. rewrite (del_children_run typed asrt n s I Hn) in Hi. cbn [snd st_after cnt] in Hi.
+    destruct (faults i k m) eqn:F; [|reflexivity]. apply Hf in F. unfold i0 in F. fold h in Hi. lia. }
+  destruct (inv_acyclic _ I n) as [ln Cn].
+  assert (Cn0 : chain h0 n ln).
+  { unfold h0. rewrite <- (detach_children_effect n h I Hn). apply moves_chain_stable; auto.
+    intros c v Hcv. apply in_map_iff in Hcv. destruct Hcv as [c' [[= <- <-] Hc']].
+    destruct (child_not_ancestor h n ln c' I Cn Hc') as [A1 A2]. split; auto.
+    apply (inv_bound_c _ I _ _ Hc'). }
+  rewrite (ancestors_of_chain _ _ _ I Cn) in Ax.
+  (* the state after the _pre_attach_children hook (no fault at i0) and after the veto *)
+  set (s1 := {| heap_of := h0; cnt := S i0;
+                log := log s0 ++ [Ev PreAttachChildren n (value_ids (map VNode xs)) h0] |}).
+  set (s2 := {| heap_of := h0; cnt := S (S i0); log := log s1 ++ [Ev PreAttach x1 [n] h0] |}).
+  assert (P0x : parent h0 x1 = None).
+  { rewrite P0. destruct (mem (children h n) x1) eqn:M; [reflexivity|].
+    destruct Px as [Px|Px]; [exact Px|]. apply (inv_link _ I) in Px. apply mem_In in Px. congruence. }
+  assert (ESP : set_parent typed asrt faults x1 (VNode n) s1 = (Err (HookExn (S i0)), s2)).
+  { change (VNode n) with (opt_value (Some n)). rewrite set_parent_unfold.
+    unfold mbind at 1. unfold get_heap. cbn [fst snd heap_of s1]. rewrite P0x. cbn [option_eqb].
+    unfold mbind at 1. rewrite (check_loop_ok h0 x1 n ln s1 eq_refl I0 Cn0 Nx Ax).
+    unfold mbind at 1. cbn [detach ret fst snd].
+    unfold attach, mbind at 1. unfold hook at 1. cbn [cnt s1]. rewrite Hv. reflexivity. }
+  assert (B0 : forall x, In x old -> x < length (heap_of s2) /\ x <> n /\ ~ In x (ancestors_of (heap_of s2) n)).
+  { intros x Hx. cbn [heap_of s2]. rewrite (ancestors_of_chain _ _ _ I0 Cn0), L0.
+    destruct (child_not_ancestor h n ln x I Cn Hx) as [A1 A2]. split; [|split; auto].
+    apply (inv_bound_c _ I _ _ Hx). }
+  assert (Hn2 : n < length (heap_of s2)) by (cbn [heap_of s2]; rewrite L0; exact Hn).
+  assert (ER : set_children typed asrt faults (S fu) n (CList (map VNode old)) s2
+               = (Ok tt, st_after s2 (eff_set_children h0 n old) (fst (log_set_children h0 n old)))).
+  { transitivity (set_children typed asrt no_faults (S fu) n (CList (map VNode old)) s2).
+    - apply (simb_set_children typed asrt faults no_faults (S fu) n (CList (map VNode old)) s2).
+      intros i k m Hi. destruct (faults i k m) eqn:F; [|reflexivity]. apply Hf in F. cbn [cnt s2] in Hi. lia.
+    - apply (set_children_run typed asrt fu n old s2 I0 Hn2 (inv_nodup _ I n) B0). }
+  assert (F0 : faults i0 PreAttachChildren n = false).
+  { destruct (faults i0 PreAttachChildren n) eqn:F; [|reflexivity]. apply Hf in F. lia. }
+  assert (E : set_children typed asrt faults (S (S fu)) n (CList (map VNode xs)) s
+              = (Err (HookExn (S i0)), st_after s2 (eff_set_children h0 n old) (fst (log_set_children h0 n old)))).
+  { rewrite set_children_S. unfold mbind at 1. rewrite check_children_ok by (auto; intros x _ []).
+    unfold mbind at 1. unfold get_heap. cbn [fst snd]. fold h. cbv zeta. fold old.
+    unfold mbind at 1. rewrite ED.
+    unfold try_except. unfold mbind at 1. unfold hook at 1.
+    assert (C0 : cnt s0 = i0) by reflexivity.
+    rewrite C0, F0. cbn [fst snd heap_of log s0 st_after]. fold s0. change (log s ++ l0) with (log s0). fold s1.
+    unfold xs. cbn [map for_each]. unfold mbind at 1. unfold mbind at 1.
+    cbn [assign_parent_of]. rewrite ESP. cbn [fst snd].
+    unfold mbind at 1. rewrite ER. reflexivity. }
+  cbv zeta. rewrite E. cbn [fst snd st_after heap_of]. split; [reflexivity|].
+  apply restore_children; assumption.
+Qed.
+End V2.
